@@ -259,3 +259,43 @@ Proof.
   intros W HW ro alpha fast std_parse. split; [exact (proj1 (valid_text_agree W HW ro alpha fast std_parse))|apply slice_stream_agree].
 Qed.
 Print Assumptions C06_three_sources_agree_on_text.
+
+(* The error is the I/O error whenever the delivered prefix does not determine
+   the outcome. A stream delivers the events pre (bytes, Interrupted results,
+   earlier failures) and then fails with e, whatever would follow. Then
+   from_reader returns that I/O error - or it returns exactly what it returns
+   on pre followed by ANY other continuation: bytes, the end of the input,
+   another failure. In the second case the prefix alone determines the result
+   (a syntax error already met, or a complete datum followed by a failure that
+   only the trailing-input check could meet... which it reports: that is the
+   first case). By reading the two streams side by side (IoFailProofs.v): every
+   function of the parser either ends in the I/O error on the failing stream
+   or returns the same on both with the readers still inside the prefix; an
+   error raised inside a nested form wins over whatever the cleanup reads. *)
+Theorem C06_io_error_or_determined : forall ro alpha fast std_parse (pre post cont : list event) (e : N),
+  from_trait ro alpha fast std_parse SrcIo (pre ++ EFail e :: post) = PErr (XErr (EIo e)) \/
+  from_trait ro alpha fast std_parse SrcIo (pre ++ cont) = from_trait ro alpha fast std_parse SrcIo (pre ++ EFail e :: post).
+Proof. exact io_error_or_determined. Qed.
+Print Assumptions C06_io_error_or_determined.
+
+Theorem C06_io_error_or_determined_datum : forall ro alpha fast std_parse (pre post cont : list event) (e : N),
+  datum_from_trait ro alpha fast std_parse SrcIo (pre ++ EFail e :: post) = PErr (XErr (EIo e)) \/
+  datum_from_trait ro alpha fast std_parse SrcIo (pre ++ cont) = datum_from_trait ro alpha fast std_parse SrcIo (pre ++ EFail e :: post).
+Proof. exact io_error_or_determined_datum. Qed.
+Print Assumptions C06_io_error_or_determined_datum.
+
+(* both cases occur: an open list, a complete datum, a token cut short - the
+   I/O error; a stray closer or a bad token before the failure - the syntax
+   error the prefix already determines, with any continuation *)
+Example C06_io_error_or_determined_nonvacuous :
+  let run inp := from_trait default_ro (fun _ => true) true dec_to_f64 SrcIo inp in
+  run (bytes_events (s2b "(a ") ++ [EFail 5%N]) = PErr (XErr (EIo 5%N)) /\
+  run (bytes_events (s2b "12") ++ [EFail 6%N]) = PErr (XErr (EIo 6%N)) /\
+  run (bytes_events (s2b "(a) ") ++ [EFail 7%N; EByte 41%N]) = PErr (XErr (EIo 7%N)) /\
+  (exists l c, run (bytes_events (s2b "(a #z ") ++ [EFail 8%N]) = PErr (XErr (ESyntax ExpectedSomeIdent l c)) /\
+               run (bytes_events (s2b "(a #z ") ++ bytes_events (s2b "b)")) = PErr (XErr (ESyntax ExpectedSomeIdent l c)) /\
+               run (bytes_events (s2b "(a #z ")) = PErr (XErr (ESyntax ExpectedSomeIdent l c))).
+Proof.
+  cbv zeta. split; [vm_compute; reflexivity|]. split; [vm_compute; reflexivity|]. split; [vm_compute; reflexivity|].
+  eexists; eexists. split; [vm_compute; reflexivity|]. split; vm_compute; reflexivity.
+Qed.
